@@ -97,14 +97,18 @@ def verify_put(run):
 KINDS = {'success': '_on_success', 'cancel': '_on_cancel', 'error': '_on_error'}
 
 
-def oa_config(S, me):
-    """class invariant established by OutputAsync.__init__"""
+def oa_config_parts(S, me):
+    """class invariant established by OutputAsync.__init__, quantifier-free facts kept apart from the quantified ones"""
     j = Int('j!cf')
     A, nA = S.f('_f_args', me); K, nK = S.f('_f_kwargs', me)
     tuples = [S.f(f, me) for f in KINDS.values()]
-    return And(nA >= 0, nK >= 0, S.f('_guard_time', me) >= 0,
-               ForAll([j], Implies(And(0 <= j, j < nA), Val.is_S(A[j]))), ForAll([j], Implies(And(0 <= j, j < nK), Val.is_S(K[j]))),
-               *[And(n >= 0, events_are_objects(arr, n)) for arr, n in tuples])
+    return [('configuration', And(nA >= 0, nK >= 0, S.f('_guard_time', me) >= 0, *[n >= 0 for arr, n in tuples])),
+            ('configuration_names_and_events', And(ForAll([j], Implies(And(0 <= j, j < nA), Val.is_S(A[j]))), ForAll([j], Implies(And(0 <= j, j < nK), Val.is_S(K[j]))),
+                                                   *[events_are_objects(arr, n) for arr, n in tuples]))]
+
+
+def oa_config(S, me):
+    return And(*[f for _, f in oa_config_parts(S, me)])
 
 
 # ---- OutputAsync._output_coro --------------------------------------------------------------------------------------------------------------------
@@ -127,6 +131,19 @@ def await_user_coro(ex, node, st):
         else:
             x = Val.Obj(fresh('exc', IntSort())); s2.ghost['exc'] = x; s2.label(f'coro:{kind}')
             outs.append((s2, Raise(PExc('CancelledError' if kind == 'cancel' else 'OtherException', val=x, where='callee'))))
+    return outs
+
+
+def await_plain_sleep(ex, node, st):
+    """`await asyncio.sleep(d)` (not shielded): returns after d seconds, or is interrupted by a cancellation at any earlier moment"""
+    me = as_kind(st.env['self'], Ref(), st)
+    outs = []
+    for s1, vals in ex.evs(node.args, st):
+        d = as_kind(vals[0], REAL, s1)
+        ok = env_for_ctrl(ex, s1, s1.readz('_queue', me), me); ok.assume(ok.ghost['now'] >= s1.ghost['now'] + d)
+        outs.append((ok, P_NONE))
+        ca = env_for_ctrl(ex, s1, s1.readz('_queue', me), me); ca.label('sleep:cancelled')
+        outs.append((ca, Raise(PExc('CancelledError', val=Val.Obj(fresh('exc', IntSort())), where='callee'))))
     return outs
 
 
@@ -155,7 +172,7 @@ def _output_coro(c):
     tuples = {k: c.pre(f, me) for k, f in KINDS.items()}
     A, nA = c.pre('_f_args', me); K, nK = c.pre('_f_kwargs', me)
     j = Int('j!oc')
-    c.requires('configuration', oa_config(c.S, me))
+    for lab_, f_ in oa_config_parts(c.S, me): c.requires(lab_, f_)
     q_ = c.pre('_queue', me)
     c.raises('DeliveryError', unchanged=False, label='delivery_of_a_result_event_failed', impose=lambda S, T: impose_ctrl_env(S, T, q_, me))
     if not c.verifying: impose_ctrl_env(c.S, c.T, q_, me)
@@ -191,7 +208,7 @@ def _output_coro(c):
         return [post.tn == 1 + n,                                      # exactly one event of that kind per configured destination
                 Implies(g > 0, post.g('now') >= post.g('t_result') + g)]  # the guard time has passed in full
     fin = finished(c.T)
-    for lab, f in zip(('every_accepted_put_gets_its_result_events', 'guard_time_has_elapsed'), fin): c.ensures(lab, f)
+    for lab, f in zip(('every_accepted_put_gets_its_result_events', 'qf:guard_time_has_elapsed'), fin): c.ensures(lab, f)
 
 
 def inv_result_sends(lc):
@@ -204,7 +221,8 @@ def verify_output_coro(run):
                invariants={'for ev in self._on_cancel': inv_result_sends, 'for ev in self._on_error': inv_result_sends,
                            'for ev in self._on_success': inv_result_sends},
                calls={'_args_as_string': lambda ex, e, st: [(st, ZV('str', fresh('argstr', StringSort())))]},
-               hooks={'await': awaits({'self._coro(*args, **kwargs)': await_user_coro, 'utils.shield_cancel(*': await_guard_sleep})})
+               hooks={'await': awaits({'self._coro(*args, **kwargs)': await_user_coro, 'utils.shield_cancel(*': await_guard_sleep,
+                                       'asyncio.sleep(*': await_plain_sleep})})
 
 
 # ---- OutputAsync._output_coro_wrapper: counts the active runs ----------------------------------------------------------------------------------------
@@ -218,7 +236,7 @@ def _wrapper(c):
     q = c.pre('_queue', me)
     c.requires('the_data_are_a_dict', Val.is_D(data))
     c.requires('output_is_the_run_counter', Val.is_I(c.pre('_output', me)))
-    c.requires('configuration', oa_config(c.S, me))
+    for lab_, f_ in oa_config_parts(c.S, me): c.requires(lab_, f_)
     c.raises('DeliveryError', unchanged=False, label='delivery_of_an_event_failed', impose=lambda S, T: impose_ctrl_env(S, T, q, me))
     c.raises('CancelledError', unchanged=False, label='cancelled_during_the_guard_time_or_the_run', impose=lambda S, T: impose_ctrl_env(S, T, q, me))
     if not c.verifying:
@@ -305,7 +323,7 @@ def items_wf(S, q):
 def ctrl_pre(c, me):
     q = c.pre('_queue', me)
     c.requires('queue_holds_put_data_and_sentinels', items_wf(c.S, q))
-    c.requires('configuration', oa_config(c.S, me))
+    for lab_, f_ in oa_config_parts(c.S, me): c.requires(lab_, f_)
     c.requires('output_is_the_run_counter', Val.is_I(c.pre('_output', me)))
     return q
 
@@ -628,7 +646,7 @@ def _oa_stop_async(c):
     me = c.z('self')
     sd = c.pre('_stop_data', me)
     c.requires('stop_data_is_none_or_a_dict', Or(sd == Val.VNone, Val.is_D(sd)))
-    c.requires('configuration', oa_config(c.S, me))
+    for lab_, f_ in oa_config_parts(c.S, me): c.requires(lab_, f_)
     c.requires('output_is_the_run_counter', Val.is_I(c.pre('_output', me)))
     start_mode = c.pre('_ctrl_coro', me) == StringVal('method:_ctrl_start')
     last_run = And(sd != Val.VNone, start_mode)
